@@ -690,7 +690,14 @@ func ParseRules(input string) (ParaRules, []string, error) {
 		case strings.HasPrefix(tmp, HAT.String()), strings.HasPrefix(tmp, HAT.Tok()):
 			_, paragraph, _ = strings.Cut(match[0], "\n")
 		case strings.HasSuffix(tmp, "}"):
-			paragraph = strings.Replace(match[0], "}\n", "\n", 1)
+			// The closing brace of the block stands alone on the last line:
+			// a comment or a rule may end in } too (# see @{etc_ro})
+			paragraph = match[0]
+			last := strings.LastIndex(tmp, "\n") + 1
+			if strings.TrimSpace(tmp[last:]) == "}" {
+				start := len(match[0]) - len(strings.TrimLeft(match[0], "\t ")) + last
+				paragraph = match[0][:start] + strings.Replace(match[0][start:], "}", "", 1)
+			}
 		default:
 			paragraph = match[0]
 		}
